@@ -67,6 +67,28 @@ Theorem C09_failed_eval_changes_nothing : forall h a k, inv h ->
   forall c, a < nobjs h -> items_content (step h' (OForce a c)) a = icontent h a.
 Proof. exact failed_eval_changes_nothing_lemma. Qed.
 
+(* PRIVATE BUILDERS.  A list method that builds its result in a private slice - make([]Value, 0, c0), any sequence of
+   `r = append(r, x)` with ARBITRARY growth decisions of the runtime (the capacity argument of every BAppend),
+   re-slices `r = r[lo:hi]` within the length, finally NewList(r...) - is the operation OBuild c0 script.  For
+   every script and every growth policy it is add_fresh of the script's content, up to arrays nobody can reach:
+   the invariant is kept; exactly one handle is added and every existing handle's content is unchanged; the new
+   handle shows exactly content_of script; the abstraction of the heap is that of add_fresh (any capacity); every
+   array that existed is untouched, every existing object is the same object and refers to an old array (or to
+   none) while the new object's slice lives in a new array - no existing object can reach the builder's arrays.
+   OBuild is an ordinary `op`: C09_step_preserves, C09_history_persistent, C09_run_refines cover histories with it. *)
+Theorem C09_private_builder_is_add_fresh : forall h c0 script c, inv h ->
+  let h' := step h (OBuild c0 script) in
+  let hf := add_fresh h (content_of script) c in
+  inv h' /\
+  (nobjs h' = nobjs hf /\ forall x, x < nobjs h -> icontent h' x = icontent h x) /\
+  icontent h' (nobjs h) = content_of script /\
+  abs h' = abs hf /\
+  ((forall a, a < length (h_arrs h) -> nth a (h_arrs h') [] = nth a (h_arrs h) []) /\
+   (forall i ob, get_obj h i = Some ob ->
+      get_obj h' i = Some ob /\ (s_arr (o_items ob) < length (h_arrs h) \/ s_cap (o_items ob) = 0)) /\
+   (exists nw, get_obj h' (nobjs h) = Some nw /\ length (h_arrs h) <= s_arr (o_items nw))).
+Proof. exact private_builder_is_add_fresh_lemma. Qed.
+
 (* maps: no operation of value/map.go changes what an existing map yields (Get, Iter, Size, sorted entries) *)
 Theorem C09_map_step_preserves : forall h o i m, mwf h -> get_map h i = Some m ->
   mwf (mstep h o) /\ get_map (mstep h o) i = Some m /\
@@ -121,6 +143,37 @@ Theorem C09_listmap_append_builder_partial : forall h l k v c i m,
   miter arrs' m = miter (mh_arrs h) m /\ (forall k', mget arrs' m k' = mget (mh_arrs h) m k').
 Proof. exact lm_append_builder_partial_lemma. Qed.
 
+(*     ... lifted to a WHOLE SCRIPT: listMap.New(size) followed by any sequence of ListMap.Append on that private
+       ListMap, each with an arbitrary growth decision (MScript; the builders of map literal, map(), accept(),
+       minMax, createFlat are such scripts).  Every existing map reads the same (Get, Iter, Size) from the
+       builder's heap; the old arrays are untouched and the builder's ListMap lives in a new one; it holds exactly
+       what the script put (last value per key, position of the first put); handing it to NewMap gives a
+       well-formed heap with one more handle showing these entries.  MScript is an ordinary `mop`:
+       C09_map_step_preserves and C09_map_history_persistent cover histories with it. *)
+Theorem C09_listmap_builder_script : forall h size script, mwf h ->
+  let r := lm_script (mh_arrs h) size script in
+  let h' := mstep h (MScript size script) in
+  (forall i m, get_map h i = Some m ->
+     get_map h' i = Some m /\ (forall k, mget (fst r) m k = mget (mh_arrs h) m k) /\
+     miter (fst r) m = miter (mh_arrs h) m /\ msize (fst r) m = msize (mh_arrs h) m) /\
+  keeps (length (mh_arrs h)) (mh_arrs h) (fst r) /\ length (mh_arrs h) <= lm_arr (snd r) /\
+  lm_rd (fst r) (snd r) = pl_build (script_entries script) /\
+  mwf h' /\ get_map h' (nmaps h) = Some (SList (snd r)) /\
+  mcontent (mh_arrs h') (SList (snd r)) = sort_entries (pl_build (script_entries script)).
+Proof. exact listmap_builder_script_lemma. Qed.
+
+(* non-vacuity of the builder theorems: a script that grows with odd capacities, re-slices and goes on appending *)
+Example C09_builder_nonvacuous :
+  let script := [BAppend 1 1; BAppend 2 7; BAppend 3 0; BReslice 1 3; BAppend 4 0; BAppend 5 2] in
+  content_of script = [2; 3; 4; 5]%Z /\
+  abs (run [OLit [9]%Z 3; OBuild 0 script; OAppend 0 8 0 0]) = [[9]; [2; 3; 4; 5]; [9; 8]]%Z.
+Proof. vm_compute. split; reflexivity. Qed.
+
+Example C09_map_builder_nonvacuous :
+  let script := [MBAppend [97%N] 1 0; MBAppend [98%N] 2 9; MBAppend [97%N] 3 0] in
+  lm_rd (fst (lm_script [] 1 script)) (snd (lm_script [] 1 script)) = [([97%N], 3%Z); ([98%N], 2%Z)].
+Proof. vm_compute. reflexivity. Qed.
+
 (* non-vacuity: a history with a three-way branch on a list of length 3 and capacity 4 (first append in
    place, the others copy), an append to a lazily produced list and windows; all hypotheses are satisfiable *)
 Example C09_nonvacuous :
@@ -146,6 +199,8 @@ Print Assumptions C09_run_refines.
 Print Assumptions C09_siblings_independent.
 Print Assumptions C09_observe_preserves.
 Print Assumptions C09_failed_eval_changes_nothing.
+Print Assumptions C09_private_builder_is_add_fresh.
+Print Assumptions C09_listmap_builder_script.
 Print Assumptions C09_map_step_preserves.
 Print Assumptions C09_map_history_persistent.
 Print Assumptions C09_combineN_alias_refuted.
